@@ -410,6 +410,14 @@ def mon_inbound(tr):
                         (fedq if live else pending).append(d)
                     elif d["name"] == "pubrel" and live:
                         fedq.append(d)
+        if f and f[0] == "damage" and len(f) > 2:
+            try:
+                if int(f[2], 16) >= 0x10000:
+                    markers.discard(int(f[2], 16) - 0x10000)
+            except ValueError:
+                pass
+        if f and f[0] == "init":
+            markers, cycle_open, owned = set(), set(), set()
         if f and f[0] in ("adopt",):
             owed, fedq, inbuf, live = None, [], b"", False
             # cycles survive a restart through the markers in the store
@@ -499,6 +507,9 @@ def mon_inbound(tr):
             elif l.startswith("ev w "):
                 for d in w.add(i, p[2], unhex(p[3])):
                     if d["name"] == "pubcomp":
+                        if d["id"] in markers:
+                            out.append(("inbound:pubcomp-before-release", "PUBCOMP %04x written while the record of that delivery cycle is still stored: "
+                                        "the next message under this identifier would be taken for a retransmission" % d["id"]))
                         cycle_open.discard(d["id"])
                         owned.discard(d["id"])
                     if d["name"] in ("puback", "pubrec"):
